@@ -747,14 +747,14 @@ class Client:
                 return True
             return False
 
-        (active_script, scripts) = self.listscripts()
-        condition = oldname != active_script and (
-            scripts is None or oldname not in scripts
-        )
-        if condition:
+        listing = self.listscripts()
+        if listing is None:
+            return False
+        (active_script, scripts) = listing
+        if oldname != active_script and oldname not in scripts:
             self.errmsg = b"Old script does not exist"
             return False
-        if newname in scripts:
+        if newname == active_script or newname in scripts:
             self.errmsg = b"New script already exists"
             return False
         oldscript = self.getscript(oldname)
